@@ -14,6 +14,8 @@ PLAN.json (all optional):
   fixpoint     : {spec, opts}  after main(): enumerate every proposal on the
                         result of strategy_hierarchical.reduce and evaluate it
   stop_after_accepts : n  raise KeyboardInterrupt after n accepted steps
+  stop_on_repeat : bool  stop (KeyboardInterrupt) when an output content repeats
+  max_accepts  : n      stop when more than n contents were written
 Result: DIR/after.json
 """
 import json
@@ -50,9 +52,12 @@ def main():
     state = dict(accepts=0, write_events=0, writes=0, result=None, writes_log=[])
 
     def digest(exprs):
-        plain = model.to_plain(exprs)
-        toks = refreader.flatten_top(plain)
-        return '%016x' % vspec.token_hash(toks)
+        """digest of the content *with* comments (erasing a comment is a
+        legitimate step that changes the file but not the token sequence)"""
+        return '%016x' % vspec.token_hash(vspec.seq_with_comments(model.to_plain(exprs)))
+
+    def tokdigest(exprs):
+        return '%016x' % vspec.token_hash(refreader.flatten_top(model.to_plain(exprs)))
 
     def emit(ev):
         ev['pid'] = os.getpid()
@@ -99,7 +104,7 @@ def main():
             salt, ms = delay
             time.sleep(ms[vspec.mix(int(dg, 16), salt + 1) % len(ms)] / 1000.0)
         if trace:
-            emit(dict(e='V', cand=dg, verdict=bool(res)))
+            emit(dict(e='V', cand=dg, tok=tokdigest(exprs), verdict=bool(res)))
         return res
 
     if trace or delay:
@@ -117,9 +122,18 @@ def main():
         if is_out:
             state['writes'] += 1
             dg = digest(exprs)
+            if plan.get('stop_on_repeat') and dg in state['writes_log']:
+                # the run came back to an input it had already adopted: a cycle
+                # (C03); stop here instead of looping until the wall limit
+                state['writes_log'].append(dg)
+                state['repeat'] = dg
+                raise KeyboardInterrupt()
+            if plan.get('max_accepts') and state['writes'] > plan['max_accepts']:
+                state['too_many_accepts'] = True
+                raise KeyboardInterrupt()
             state['writes_log'].append(dg)
             if trace:
-                emit(dict(e='Wb', cand=dg, n=state['writes'], ids_distinct=ids_distinct(exprs)))
+                emit(dict(e='Wb', cand=dg, tok=tokdigest(exprs), n=state['writes'], ids_distinct=ids_distinct(exprs)))
         if is_out and (interrupt_at is not None or count_events):
 
             def tracer(frame, event, arg):
@@ -225,7 +239,8 @@ def main():
                  writes_log=state['writes_log'],
                  write_events=state['write_events'], accepts=state['accepts'],
                  interrupted_in_write=state.get('interrupted_in_write'),
-                 stopped=state.get('stopped', False))
+                 stopped=state.get('stopped', False), repeat=state.get('repeat'),
+                 too_many_accepts=state.get('too_many_accepts', False))
 
     # ------------------------------------------------------- fixpoint
     fp = plan.get('fixpoint')
